@@ -44,7 +44,8 @@ impl Tier {
     pub fn pick(self, quick: u64, thorough: u64) -> u64 {
         match self {
             Tier::Quick => quick.saturating_mul(QUICK_SCALE.load(std::sync::atomic::Ordering::Relaxed)).min(thorough.max(quick)),
-            Tier::Thorough => thorough,
+            // at least 20 times the (scaled) quick tier
+            Tier::Thorough => thorough.max(quick.saturating_mul(QUICK_SCALE.load(std::sync::atomic::Ordering::Relaxed)).saturating_mul(20)),
         }
     }
 }
